@@ -13,13 +13,12 @@ def main (args : List String) : IO UInt32 := do
     let mod := modS.toName
     let ns := nsS.toName
     let env ← importModules #[{ module := mod }] {} (trustLevel := 1024)
-    let some idx := env.getModuleIdx? mod | do IO.eprintln "module not found"; return 1
     let mut names : Array Name := #[]
     for (n, ci) in env.constants.toList do
       if ns.isPrefixOf n && n != ns then
         match ci with
         | .thmInfo _ =>
-          if env.getModuleIdxFor? n == some idx && !n.isInternalDetail then names := names.push n
+          if !n.isInternalDetail then names := names.push n
         | _ => pure ()
     let sorted := names.qsort (fun a b => a.toString < b.toString)
     for n in sorted do
